@@ -355,21 +355,21 @@ End VmRun.
 (* the value a key stands for: nil, an integer, the bit pattern of a real, the text of a string, handle and
    arity of a function, the handle of a native function; closures and upvalue cells are their own identity *)
 Inductive keyval :=
-| KNil | KInt (z : Z) | KReal (bits : N) | KStr (s : list N) | KFun (h arity : N) | KNative (h : N)
-| KIdent (a : N) | KNone.
+| KvNil | KvInt (z : Z) | KvReal (bits : N) | KvStr (s : list N) | KvFun (h arity : N) | KvNative (h : N)
+| KvIdent (a : N) | KvNone.
 
 Definition key_value (h : heap) (k : value) : keyval :=
   match k with
-  | VNil => KNil
-  | VInt z => KInt z
-  | VReal r => KReal r
+  | VNil => KvNil
+  | VInt z => KvInt z
+  | VReal r => KvReal r
   | VObj a =>
       match hget h a with
-      | Some (OStr s) => KStr s
-      | Some (OFun f ar) => KFun f ar
-      | Some (ONative f) => KNative f
-      | Some (OClo _ _ _) | Some (OUp _) => KIdent a
-      | Some (OTable _) | None => KNone
+      | Some (OStr s) => KvStr s
+      | Some (OFun f ar) => KvFun f ar
+      | Some (ONative f) => KvNative f
+      | Some (OClo _ _ _) | Some (OUp _) => KvIdent a
+      | Some (OTable _) | None => KvNone
       end
   end.
 
